@@ -42,7 +42,7 @@ func main() {
 	if c.Quick() {
 		scens = []scen{
 			{Name: "linear", Kind: "linear", Pre: 1, LenA: 3},
-			{Name: "reorg-d1", Kind: "reorg", Pre: 1, LenA: 1, LenB: 2, Mode: "mixed"},
+			{Name: "reorg-d1", Kind: "reorg", Pre: 1, LenA: 1, LenB: 2, Mode: "mixed", Nested: true},
 			{Name: "reorg-d2-orphans", Kind: "reorg-orphans", Pre: 1, LenA: 2, LenB: 3, Mode: "conflict"},
 		}
 	} else {
@@ -69,7 +69,7 @@ func main() {
 		}(i, s)
 	}
 	wg.Wait()
-	c.Finish("for each scenario (linear connection, orphan resolution, reorganisations of depth 1..4) the node runs with journaling wrappers around both stores; for EVERY prefix of the global sequence of durable write units (single sets, committed DB transactions, flushed bulks) both stores are materialised as memorydb files and the unmodified node is started on them in a fresh process; monitors: start-up and recovery succeed, coherence predicate, best block in the allowed set (old/new tip, intermediate tips of a linear extension), and after feeding all blocks again the best block, state root and coherence equal the crash-free run. In the thorough tier the recovery run of crash points that left a reorg marker is journaled and enumerated again (one level of nesting). A case = one crash point; non-trivial = crash point whose store content differs from the previous one; distinct = (scenario, crash point)",
+	c.Finish("for each scenario (linear connection, orphan resolution, reorganisations of depth 1..4) the node runs with journaling wrappers around both stores; for EVERY prefix of the global sequence of durable write units (single sets, committed DB transactions, flushed bulks) both stores are materialised as memorydb files and the unmodified node is started on them in a fresh process; monitors: start-up and recovery succeed, coherence predicate, best block in the allowed set (old/new tip, intermediate tips of a linear extension), and after feeding all blocks again the best block, state root and coherence equal the crash-free run. The recovery run of crash points that left a reorg marker is journaled and enumerated again (one level of nesting; quick: the depth-1 reorganisation, thorough: two deeper ones). A case = one crash point; non-trivial = crash point whose store content differs from the previous one; distinct = (scenario, crash point)",
 		c.Pick(40, 400),
 		"crash = loss of all write units after k, units atomic, memorydb semantics; torn writes inside a unit and partial bulk flushes are not explored",
 		"relaxed DPoS; the LIB status saved in the tip transaction is restored by the real boot loader")
